@@ -124,7 +124,7 @@ pub fn schedule<G: AffineRepr>(prog: &Program, commitments: &[G], m: &ProofMirro
     it
 }
 
-fn static_label(l: &[u8]) -> &'static [u8] {
+pub fn static_label(l: &[u8]) -> &'static [u8] {
     const KNOWN: [&[u8]; 24] = [
         b"dom-sep", b"V", b"m", b"A_I1", b"A_O1", b"S1", b"A_I2", b"A_O2", b"S2", b"y", b"z", b"T_1", b"T_3", b"T_4", b"T_5",
         b"T_6", b"u", b"x", b"t_x", b"t_x_blinding", b"e_blinding", b"w", b"n", b"L",
@@ -154,57 +154,59 @@ pub fn run<'a>(prog: &Program, items: &'a [Item]) -> Vec<(&'a Item, [u8; 32])> {
     out
 }
 
+/// one op on the model alone; challenge ops take the next supplied register value
+pub fn model_step<F: PrimeField>(m: &mut Model<F>, op: &Op, chals: &[F], next: &mut usize) {
+    match op {
+        Op::Commit { v, blind } => {
+            m.commit(v.to_f(), blind.to_f());
+        }
+        Op::Alloc { val } => {
+            let v = m.sc(val);
+            m.alloc(v);
+        }
+        Op::AllocMul { l, r } => {
+            let (a, b) = (m.sc(l), m.sc(r));
+            m.alloc_mul(a, b);
+        }
+        Op::Mul { left, right } => {
+            let (a, b) = (m.resolve(left), m.resolve(right));
+            m.mul(a, b);
+        }
+        Op::Constrain { lc, err, base } => {
+            let mut t = m.resolve(lc);
+            let k = match base {
+                Some(b) => m.eval_terms(&m.resolve(b)),
+                None => m.eval_terms(&t),
+            };
+            let e: F = err.as_ref().map(|e| e.to_f()).unwrap_or(F::zero());
+            t.push((crate::program::Var::One, e - k));
+            m.constrain(t);
+        }
+        Op::Tamper { gate, dl, dr, dout } => {
+            m.tamper(*gate, dl.to_f(), dr.to_f(), dout.to_f());
+        }
+        Op::Challenge { .. } => {
+            m.regs.push(chals.get(*next).copied().unwrap_or(F::one()));
+            *next += 1;
+        }
+        Op::TData { .. } | Op::Closure(_) => {}
+    }
+}
+
 /// Interpret the program on the model alone; second-phase challenge registers are supplied.
 pub fn model_run<F: PrimeField>(prog: &Program, closure_challenges: &[F]) -> Model<F> {
     let mut m = Model::new();
     let mut next = 0usize;
-    fn step<F: PrimeField>(m: &mut Model<F>, op: &Op, chals: &[F], next: &mut usize) {
-        match op {
-            Op::Commit { v, blind } => {
-                m.commit(v.to_f(), blind.to_f());
-            }
-            Op::Alloc { val } => {
-                let v = m.sc(val);
-                m.alloc(v);
-            }
-            Op::AllocMul { l, r } => {
-                let (a, b) = (m.sc(l), m.sc(r));
-                m.alloc_mul(a, b);
-            }
-            Op::Mul { left, right } => {
-                let (a, b) = (m.resolve(left), m.resolve(right));
-                m.mul(a, b);
-            }
-            Op::Constrain { lc, err, base } => {
-                let mut t = m.resolve(lc);
-                let k = match base {
-                    Some(b) => m.eval_terms(&m.resolve(b)),
-                    None => m.eval_terms(&t),
-                };
-                let e: F = err.as_ref().map(|e| e.to_f()).unwrap_or(F::zero());
-                t.push((crate::program::Var::One, e - k));
-                m.constrain(t);
-            }
-            Op::Tamper { gate, dl, dr, dout } => {
-                m.tamper(*gate, dl.to_f(), dr.to_f(), dout.to_f());
-            }
-            Op::Challenge { .. } => {
-                m.regs.push(chals.get(*next).copied().unwrap_or(F::one()));
-                *next += 1;
-            }
-            Op::TData { .. } | Op::Closure(_) => {}
-        }
-    }
     for op in &prog.ops {
         if !matches!(op, Op::Closure(_)) {
-            step(&mut m, op, closure_challenges, &mut next);
+            model_step(&mut m, op, closure_challenges, &mut next);
         }
     }
     m.enter_phase2();
     for op in &prog.ops {
         if let Op::Closure(b) = op {
             for o in b {
-                step(&mut m, o, closure_challenges, &mut next);
+                model_step(&mut m, o, closure_challenges, &mut next);
             }
         }
     }
